@@ -614,6 +614,17 @@ func c18IDScopes(c *Ctx) {
 			wire.M("scoped", scoped), wire.M("user", wire.ObjV(wire.M("type", wire.StrV("object")), wire.M("properties", wire.ObjV(wire.M("u", ref))))))
 		w := &refgraph.World{Root: rootURL, Docs: map[string]wire.V{rootURL: wire.ObjV(wire.M("swagger", wire.StrV("2.0")),
 			wire.M("info", wire.ObjV(wire.M("title", wire.StrV("t")), wire.M("version", wire.StrV("1")))), wire.M("paths", wire.ObjV()), wire.M("definitions", defs))}}
+		otherURL := ""
+		if i%2 == 1 {
+			// the scope lives in a second document and is reached from the root through a $ref
+			ru, _ := url.Parse(rootURL)
+			otherURL = ru.ResolveReference(&url.URL{Path: "models/other.json"}).String()
+			w.Docs[otherURL] = wire.ObjV(wire.M("definitions", defs))
+			w.Docs[rootURL] = wire.ObjV(wire.M("swagger", wire.StrV("2.0")), wire.M("info", wire.ObjV(wire.M("title", wire.StrV("t")), wire.M("version", wire.StrV("1")))), wire.M("paths", wire.ObjV()),
+				wire.M("definitions", wire.ObjV(
+					wire.M("viaScoped", wire.ObjV(wire.M("$ref", wire.StrV("models/other.json#/definitions/scoped")))),
+					wire.M("viaUser", wire.ObjV(wire.M("type", wire.StrV("object")), wire.M("properties", wire.ObjV(wire.M("u", wire.ObjV(wire.M("$ref", wire.StrV("models/other.json#/definitions/user")))))))))))
+		}
 		wj := worldJSON(w)
 		calls := rootElements(w, "definitions", "schemaWithBase")
 		reuse := newTCache(&tracer{})
@@ -636,6 +647,14 @@ func c18IDScopes(c *Ctx) {
 			pre := newTCache(&tracer{})
 			pre.preload(w, []string{rootURL})
 			try("preloaded", pre)
+			if otherURL != "" {
+				pre2 := newTCache(&tracer{})
+				pre2.preload(w, []string{otherURL})
+				try("preloaded-second-document", pre2)
+				pre3 := newTCache(&tracer{})
+				pre3.preload(w, []string{rootURL, otherURL})
+				try("preloaded-all", pre3)
+			}
 			try("reused", reuse)
 		}
 	}
